@@ -101,7 +101,7 @@ def make_inputs(rng, desc, sources, n):
 
 def grid_for(A, n_min=90, n_max=1500):
     lam = np.linalg.eigvals(A) if A.size else np.array([-1.0])
-    big = max(abs(lam)); slow = min(abs(lam.real))
+    big = max(abs(lam)); slow = gs.decay_rate(lam)      # 0.0 for a (numerically) lossless circuit: it never settles
     h = 2.0 ** np.floor(np.log2(0.5 / max(big, 1e-9)))
     settle = slow > 0
     n = n_min
@@ -177,9 +177,12 @@ def check_case(ctx, out, desc, origin='random'):
     n = len(tin0); h = tin0[1] - tin0[0]
     if desc.get('grid') == 'coarse':    # a grid that does NOT resolve the dynamics: h ≈ 8 slowest time constants (exact for
         lam_ = np.linalg.eigvals(Aref) if Aref.size else np.array([-1.0])     # piecewise-linear inputs whatever h is)
-        slow_ = float(min(abs(lam_.real)))
+        slow_ = gs.decay_rate(lam_)
         if slow_ > 0:
             h = 2.0 ** np.ceil(np.log2(8.0 / slow_)); n = 12; tin0 = np.arange(n) * h; settle = True
+        else:                           # lossless: 8 of the slowest oscillation periods per step, no settling clause
+            h = 2.0 ** np.ceil(np.log2(8.0 * 2 * np.pi / max(float(min(abs(lam_))), 1e-9 * float(max(abs(lam_))), 1e-300)))
+            n = 12; tin0 = np.arange(n) * h; settle = False
     elif desc.get('grid') == 'two':     # the shortest grid there is
         n = 2; tin0 = np.arange(2) * h; settle = False
     # time window: the requested grid starts at t0 = m·h — zero, small, large (exact in binary64), now and then
@@ -452,7 +455,7 @@ def periodic_case(ctx, out, desc, origin='periodic'):
     except Exception:
         return                                        # reported by check_case
     lam = np.linalg.eigvals(A0) if A0.size else np.array([-1.0])
-    big, slow = float(max(abs(lam))), float(min(abs(lam.real)))
+    big, slow = float(max(abs(lam))), gs.decay_rate(lam)
     if slow <= 0 or max([c10.cond_of(p) for p in gs.impl_model(desc).inverses] + [1.0]) > 1e6:
         out.skip('periodic_not_damped'); return
     w0 = float(gs.dyadic_near(float(np.median(abs(lam)))))
